@@ -52,6 +52,19 @@ func c10Cases(e *Env) []txCase {
 		return c
 	}
 	out = append(out, mk("none", "", "file", ""), mk("file", "", "none", ""))
+	// a first run that starts at a checkpoint file (the older file is skipped); a crash inside the checkpoint
+	// leaves it partially applied (none mode), the re-run resumes it and runs every later file
+	for _, mode := range []string{"none", "file"} {
+		c := txCase{Mode: mode, PreJournal: true, Checkpoint: true}
+		for _, n := range []int{2, 1, 2} {
+			ok := make([]bool, n)
+			for i := range ok {
+				ok[i] = true
+			}
+			c.Files = append(c.Files, txFile{Ok: ok})
+		}
+		out = append(out, c)
+	}
 	if e.Thorough() {
 		out = append(out, mk("none", "file", "file"), mk("file", "none", "none"), mk("none", "file", "", "file"))
 	}
@@ -68,7 +81,7 @@ func runC10(e *Env) error {
 	}
 	defer pool.Close()
 	cases := c10Cases(e)
-	e.Res.Rule = "cases = directory shape (files x statements) x tx-mode {file, all, none} x journal variant (+ txmode-directive mixes); per case: one traced run (operation sequence == Lean plan), then the process is SIGKILLed before and after EVERY database operation (statement, revision upsert, BEGIN, COMMIT, pragma, revision-table bootstrap); after each kill: dump == model crash state, monitors no-half-file / revision<=effects; re-run of the same command must succeed; final dump == model and every statement once (file/all) or at most one twice (none); non-trivial = a crash point inside the migration; distinct by (case, point)"
+	e.Res.Rule = "cases = directory shape (files x statements) x tx-mode {file, all, none} x journal variant (+ txmode-directive mixes, + a first run starting at a checkpoint file with an older file to skip); per case: one traced run (operation sequence == Lean plan), then the process is SIGKILLed before and after EVERY database operation (statement, revision upsert, BEGIN, COMMIT, pragma, revision-table bootstrap); after each kill: dump == model crash state, monitors no-half-file / revision<=effects; re-run of the same command must succeed; final dump == model and every statement once (file/all) or at most one twice (none); non-trivial = a crash point inside the migration; distinct by (case, point)"
 	var mu sync.Mutex
 	viol := func(kind, sig, what, check string, rep any) {
 		mu.Lock()
